@@ -44,7 +44,7 @@ type c04 struct{}
 func (c04) ID() string    { return "C04" }
 func (c04) Level() string { return "exploration" }
 func (c04) Rule() string {
-	return "cases = (a) constraint API: every instance of <=2 constraints (any shape; pairs with weights {hard,1,2} in quick: clause, cardinality with implicit unit coefficients and AtLeast 1..len, PB with coefficients in {1,2} and AtLeast 1..sum) and every instance of 3 constraints from a reduced alphabet, over 3 named variables, each constraint hard or soft with weight 1..3, x every permutation of the cost-function order (the map-iteration order of maxsat.New made explicit through the verif hook); (b) WCNF: every text with <=3 clauses of <=2 literals over 2 variables, weights 1..3, top weight absent/2/4/sum+1, declared variable count = max used or +1, x Optimal with and without a result channel. Oracle: truth table over the user's variables: unsatisfiable iff the hard part is; model covers exactly the user's variables (no relaxation variable); hard constraints satisfied; reported cost == weight of the soft constraints the model violates == minimum. Non-trivial = at least one soft constraint must be violated at the optimum, or the hard part is unsatisfiable."
+	return "cases = (a) constraint API: every instance of <=2 constraints (any shape; pairs with weights {hard,1,2} in quick: clause, cardinality with implicit unit coefficients and AtLeast 1..len, PB with coefficients in {1,2} and AtLeast 1..sum) and every instance of 3 constraints from a reduced alphabet, every triple of soft cardinality constraints (implicit coefficients, degree >= 2, sizes 2 and 3 in every order) with weights (1,1,1) and (1,2,3), over 3 named variables, each constraint hard or soft with weight 1..3, x every permutation of the cost-function order (the map-iteration order of maxsat.New made explicit through the verif hook); (b) WCNF: every text with <=3 clauses of <=2 literals over 2 variables, weights 1..3, top weight absent/2/4/sum+1, declared variable count = max used or +1, x Optimal with and without a result channel. Oracle: truth table over the user's variables: unsatisfiable iff the hard part is; model covers exactly the user's variables (no relaxation variable); hard constraints satisfied; reported cost == weight of the soft constraints the model violates == minimum. Non-trivial = at least one soft constraint must be violated at the optimum, or the hard part is unsatisfiable."
 }
 func (c04) Assumptions() []string {
 	return []string{"truth-table reference is correct", "weights and coefficients above 3 are not covered"}
@@ -204,6 +204,29 @@ func (c04) Enumerate(tier string, seed int64, yield func(string, core.Case) bool
 			for _, c := range small {
 				if !emitAPI("api3", []MCon{a, b, c}) {
 					return
+				}
+			}
+		}
+	}
+	// three soft cardinality constraints (implicit unit coefficients, degree >= 2) of every size pattern
+	// over 3 variables: constructions that share or reuse per-constraint buffers only go wrong from the
+	// third constraint on and only when the sizes shrink and grow again
+	{
+		var cards []MCon
+		for _, l := range litSets(3, 2, 3) {
+			for k := 2; k <= len(l); k++ {
+				cards = append(cards, MCon{L: l, K: k})
+			}
+		}
+		for _, ws := range [][3]int{{1, 1, 1}, {1, 2, 3}} {
+			for _, a := range cards {
+				for _, b := range cards {
+					for _, c := range cards {
+						a.W, b.W, c.W = ws[0], ws[1], ws[2]
+						if !emitAPI("api3card", []MCon{a, b, c}) {
+							return
+						}
+					}
 				}
 			}
 		}
